@@ -393,6 +393,43 @@ pub fn gen_atom(r: &mut Rng, q: &Query) -> Pred {
     }
 }
 
+/// Sharpen the comparisons of a predicate against the graph it will run on: a node property
+/// compared with a constant gets, with some probability, a literal at / just inside / just
+/// outside the store-wide minimum or maximum of that key (the zone map's bounds), and is
+/// written literal-first (`5 <= n.k`) half of the time.
+pub fn sharpen_pred(p: &mut Pred, bounds: &dyn Fn(&str) -> Option<(Value, Value)>, r: &mut Rng) {
+    match p {
+        Pred::And(a, b) | Pred::Or(a, b) => {
+            sharpen_pred(a, bounds, r);
+            sharpen_pred(b, bounds, r);
+        }
+        Pred::Not(a, _) | Pred::PredIsNull(a) => sharpen_pred(a, bounds, r),
+        Pred::Cmp(op, Term::Prop(v @ Var::N(_), k), Term::Const(c)) => {
+            let mut c2 = c.clone();
+            if r.chance(0.6) {
+                if let Some((lo, hi)) = bounds(k) {
+                    let step = |v: &Value, d: i64| match v {
+                        Value::Int64(i) => Value::Int64(i + d),
+                        Value::Float64(f) => Value::Float64(f + d as f64 * 0.5),
+                        other => other.clone(),
+                    };
+                    c2 = match r.below(6) {
+                        0 => lo,
+                        1 => hi,
+                        2 => step(&lo, 1),
+                        3 => step(&hi, -1),
+                        4 => step(&lo, -1),
+                        _ => step(&hi, 1),
+                    };
+                }
+            }
+            let (op, v, k) = (*op, *v, k.clone());
+            *p = if r.chance(0.5) { Pred::Cmp(op, Term::Const(c2), Term::Prop(v, k)) } else { Pred::Cmp(op, Term::Prop(v, k), Term::Const(c2)) };
+        }
+        _ => {}
+    }
+}
+
 pub fn gen_pred(r: &mut Rng, q: &Query, depth: u32) -> Pred {
     if depth == 0 || r.chance(0.45) {
         return gen_atom(r, q);
@@ -782,6 +819,9 @@ fn term_feats(t: &Term, f: &mut BTreeSet<String>) {
 pub fn pred_feats(p: &Pred, f: &mut BTreeSet<String>) {
     match p {
         Pred::Cmp(op, a, b) => {
+            if matches!((a, b), (Term::Const(_), Term::Prop(..))) {
+                f.insert("lit_left".into());
+            }
             f.insert(match op {
                 CmpOp::Eq | CmpOp::Ne => "cmp_eq".to_string(),
                 _ => "cmp_ord".to_string(),
